@@ -298,15 +298,24 @@ fn cstr(p: &std::path::Path) -> CString {
     CString::new(p.as_os_str().as_bytes()).unwrap()
 }
 
+/// One scratch directory per run, named after the process that first asks for it (main does, before any worker is
+/// forked): the forked workers inherit the name, so everything lives below one directory that main removes.
+static SCRATCH_OWNER: std::sync::OnceLock<u32> = std::sync::OnceLock::new();
+fn scratch_owner() -> u32 {
+    *SCRATCH_OWNER.get_or_init(std::process::id)
+}
 pub fn scratch_base() -> String {
     let t = std::env::var("XV_SCRATCH").or_else(|_| std::env::var("TMPDIR")).unwrap_or_else(|_| "/tmp".to_string());
-    format!("{}/xv.{}", t.trim_end_matches('/'), std::process::id())
+    format!("{}/xv.{}", t.trim_end_matches('/'), scratch_owner())
 }
 pub fn scratch_base_tmpfs() -> String {
-    format!("/dev/shm/xv.{}", std::process::id())
+    format!("/dev/shm/xv.{}", scratch_owner())
 }
 
 pub fn cleanup_scratch() {
+    if scratch_owner() != std::process::id() {
+        return; // a forked worker: the directory is main's
+    }
     let _ = std::fs::remove_dir_all(scratch_base());
     let _ = std::fs::remove_dir_all(scratch_base_tmpfs());
 }
